@@ -18,6 +18,7 @@
   (`UnstakeFresh`, `JailFresh` inside `RunOK`).
 -/
 import RigoProofs.C02Counter
+import RigoProofs.C02Witness
 
 namespace Rigo.C02
 
@@ -141,5 +142,110 @@ example : Inv .idle (initChain Cex.G) ∧ SupplyBound (initChain Cex.G) :=
   ⟨init_inv _ Cex.sane, by
     show total (initChain Cex.G) < _
     have := Cex.genesis_total; unfold genesisTotal at this; rw [this]; decide⟩
+
+/-! ### deepening: burns are non-negative, `SupplyBound` derived, no wrap-around, committed versions -/
+
+/-- "stake destroyed by slashing" (and the EVM burn) are genuine burns: never negative along an
+    admissible history.  Uses the reachable invariant that every bonded/unbonding stake power is in
+    [0, 2^63) (`Inv0`, proved inductive in `step_ok`) and `SlashSane`. -/
+theorem burns_nonneg_run (g : Genesis) (hg : GenesisSane g) (ops : List Op) (p : Phase)
+    (hph : phaseRun .idle ops = some p) (hok : RunOK (initChain g) ops) :
+    0 ≤ slashBurnRun (initChain g) ops ∧ 0 ≤ evmBurnRun (initChain g) ops :=
+  burns_nonneg ops .idle p (initChain g) (init_inv g hg) hph hok
+
+/-- hence value is never created: at every block boundary `total ≤ genesis total + withdrawn rewards` -/
+theorem total_le_genesis_plus_withdrawn (g : Genesis) (hg : GenesisSane g) (ops : List Op)
+    (hph : phaseRun .idle ops = some .idle) (hok : RunOK (initChain g) ops) :
+    total (exec (initChain g) ops) ≤ genesisTotal g + (exec (initChain g) ops).ghost.withdrawn := by
+  have e := conservation_partial g hg ops hph hok
+  obtain ⟨b1, b2⟩ := burns_nonneg_run g hg ops .idle hph hok
+  omega
+
+/-- **`SupplyBound` is derived, not assumed**: if `genesisTotal g + W < 2^63·10^18` where `W` bounds the
+    rewards withdrawn at any time of the history (`RunOK1 W` = the side conditions of `RunOK` WITHOUT
+    `SupplyBound`, plus `withdrawn ≤ W` at every state), then `SupplyBound` holds before every step
+    (so `RunOK` holds and all theorems above apply). -/
+theorem supplyBound_derived (g : Genesis) (hg : GenesisSane g) (W : Int)
+    (hB : genesisTotal g + W < ((two63 * amountPerPower : Nat) : Int)) (ops : List Op) (p : Phase)
+    (hph : phaseRun .idle ops = some p) (hok : RunOK1 W (initChain g) ops) :
+    RunOK (initChain g) ops :=
+  (supply_bound_derived g hg W hB ops p hph hok).1
+
+/-- **no_wrap** (state form, ONE theorem): at every state reachable through a well-phased history (ending
+    in ANY phase `p`) whose steps satisfy `RunOK1 W` with `genesisTotal g + W < 2^63·10^18`:
+    every balance, the fee sum in flight, and 10^18 × (bonded + unbonding power) are below
+    2^63·10^18 (< 2^123 ≪ 2^255), and every stake power is in [0, 2^63).  Under exactly these bounds the
+    helper lemmas `subBalance_exact`, `addBalance_exact`, `powerToAmount_exact`, `amountToPower_exact`
+    and the fee-sum step in `deliver_ok` show each `wadd`/`wsub`/`wmul` that `step` executes on balances,
+    fee sum and stake amounts equals its unbounded result.  (Reward records are outside `total`; see
+    `reward_no_wrap_statement`.) -/
+theorem no_wrap (g : Genesis) (hg : GenesisSane g) (W : Int)
+    (hB : genesisTotal g + W < ((two63 * amountPerPower : Nat) : Int)) (ops : List Op) (p : Phase)
+    (hph : phaseRun .idle ops = some p) (hok : RunOK1 W (initChain g) ops) :
+    NoWrap p (exec (initChain g) ops) := by
+  obtain ⟨_, i, v, w⟩ := supply_bound_derived g hg W hB ops p hph hok
+  exact noWrap_of i (by omega)
+
+theorem bound_lt_two255 : ((two63 * amountPerPower : Nat) : Int) < (two255 : Int) := by decide
+
+/-- NOT proved (outside the conserved quantity): reward records never wrap.  `Reward.issue` adds
+    `power × rewardPerPower` with `wadd`/`wmul`; bounding `cumulated` needs a bound on total issuance
+    (`rewardPerPower` × Σ power × number of blocks), which is a property of C13's issuance ledger. -/
+def reward_no_wrap_statement : Prop :=
+  ∀ (g : Genesis) (ops : List Op) (p : Phase), GenesisSane g → phaseRun .idle ops = some p →
+    RunOK (initChain g) ops →
+    ∀ (k : String) (r : Reward), (exec (initChain g) ops).rewards.fin[k]? = some r → r.cumulated < two255
+
+/-- **conservation_committed**: the same equation over the last COMMITTED versions of the three ledgers
+    (`hist.getLast?`), at every block boundary after the first commit (there the consensus view equals
+    the committed version — `IdleSync`, part of the invariant `Inv .idle`). -/
+theorem conservation_committed (g : Genesis) (hg : GenesisSane g) (ops : List Op)
+    (hph : phaseRun .idle ops = some .idle) (hok : RunOK (initChain g) ops)
+    (hc : (exec (initChain g) ops).accts.hist ≠ []) :
+    totalCommitted (exec (initChain g) ops) + slashBurnRun (initChain g) ops + evmBurnRun (initChain g) ops +
+        (exec (initChain g) ops).ghost.feeBurn =
+      genesisTotal g + (exec (initChain g) ops).ghost.withdrawn := by
+  obtain ⟨i, e⟩ := conservation_run g hg ops hph hok
+  rw [totalCommitted_eq i hc]; exact e
+
+/-! ### a non-trivial witness: all hypotheses hold on a concrete history -/
+
+/-- `RunOK` (incl. `UniqueFrozenKeys`, derived `SupplyBound`) holds on the four-block history `Wit.HW`:
+    transfer, CheckTx + DeliverTx of a delegation, a failing transaction, a reward withdrawal, an
+    unstaking, a restart, the refund of the unbonded stake (checked by `decide +kernel` via `runOK1B`). -/
+theorem witness_runOK : RunOK (initChain Wit.GW) Wit.HW :=
+  supplyBound_derived Wit.GW Wit.sane 7 (by rw [Wit.genesis_total]; decide) Wit.HW .idle Wit.phases
+    (runOK1B_ok 7 _ _ Wit.checker)
+
+/-- `conservation_partial` applies to it … -/
+example : total (exec (initChain Wit.GW) Wit.HW) + slashBurnRun (initChain Wit.GW) Wit.HW +
+    evmBurnRun (initChain Wit.GW) Wit.HW + (exec (initChain Wit.GW) Wit.HW).ghost.feeBurn =
+    genesisTotal Wit.GW + (exec (initChain Wit.GW) Wit.HW).ghost.withdrawn :=
+  conservation_partial Wit.GW Wit.sane Wit.HW Wit.phases witness_runOK
+
+/-- … and agrees with direct evaluation: 25·10^18+100 at genesis, 7 withdrawn, 3 fee units burnt
+    (block 2 had no proposer), the refund of 1 power unit to C happened at height 3 -/
+example : total (exec (initChain Wit.GW) Wit.HW) = genesisTotal Wit.GW + 7 - 3 ∧
+    (exec (initChain Wit.GW) Wit.HW).ghost.refunds = [(Wit.hashS, Wit.addrC, 1, 3)] := by
+  rw [Wit.final_total, Wit.genesis_total]; exact ⟨by decide, Wit.refund_happened⟩
+
+/-- no wrap-around on the witness -/
+example : NoWrap .idle (exec (initChain Wit.GW) Wit.HW) :=
+  no_wrap Wit.GW Wit.sane 7 (by rw [Wit.genesis_total]; decide) Wit.HW .idle Wit.phases (runOK1B_ok 7 _ _ Wit.checker)
+
+/-! ### second counter-example: jailing -/
+
+/-- **Counter-example 2** (same root cause through `freezeAll` in `processVote`): two genesis validators
+    miss the same block (`signedBlocksWindow = minSignedBlocks = 1`); BeginBlock of block 2 jails both,
+    moving ALL their stakes into the unbonding ledger keyed by the all-zero hash: B's stake overwrites
+    A's, 10·10^18 vanish inside one BeginBlock with no transaction at all. -/
+theorem conservation_statement_false_jailing :
+    total (exec (initChain Wit.GJ) Wit.HJ) + slashBurnRun (initChain Wit.GJ) Wit.HJ +
+      evmBurnRun (initChain Wit.GJ) Wit.HJ + (exec (initChain Wit.GJ) Wit.HJ).ghost.feeBurn + (amountPerPower : Int) * 10 =
+    genesisTotal Wit.GJ + (exec (initChain Wit.GJ) Wit.HJ).ghost.withdrawn ∧
+    GenesisSane Wit.GJ ∧ phaseRun .idle Wit.HJ = some .idle ∧ runOK0 (initChain Wit.GJ) Wit.HJ = true := by
+  refine ⟨?_, Wit.j_sane, Wit.j_phases, Wit.j_run_ok0⟩
+  rw [Wit.j_final_total, Wit.j_burns.1, Wit.j_burns.2.1, Wit.j_burns.2.2.1, Wit.j_burns.2.2.2, Wit.j_genesis_total]
+  decide
 
 end Rigo.C02
